@@ -216,3 +216,21 @@ def request_length_fp(vc):
     vc.ensure('C10/request-length-fp/exc/none', out.ok)
     if out.ok:
         vc.ensure('C10/request-length-fp/post/exactly-n-samples', And(eq(out.value.shape[0], n), eq(s.fields['ts'].shape[0], n), eq(s.fields['rng'].pos, n)))
+
+
+@contract('C10', 'returned_chunks_belong_to_the_caller', functions=[DS + '.get_samples', DS + '._update_t'])
+def returned_chunks(vc):
+    """Concatenating the chunks a caller collected equals one request only if a later request never writes into an array returned earlier (for a
+    real-valued stream, equal or different request sizes): frame obligation on the returned array."""
+    s, P = make_stream(vc, 'a', bool(vc.choose(2, 'ascending')), False)
+    n1, n2 = Int('n1'), Int('n2')
+    vc.assume(And(n1 >= 1, n2 >= 1))
+    ga = vc.interp.getattr(s, 'get_samples')
+    v1 = vc.interp.call(ga, [n1], {})
+    w1 = v1.root().writes
+    snap = SArr(v1.shape, v1._snapshot(), v1.dtype)
+    v2 = vc.interp.call(ga, [n2], {})
+    k = Int('k')
+    vc.cover('reachable')
+    vc.ensure('C10/get_samples/frame/an-earlier-returned-array-is-never-written-by-a-later-request',
+              And(v1.root().writes == w1, v2.root() is not v1.root(), Implies(And(k >= 0, k < n1), eq(v1.at((k,)), snap.at((k,))))))
